@@ -70,6 +70,14 @@ func runC01(r *vk.Run) {
 		ds := genDataset(rng, format, n, logT0)
 		unknown, undecided := 0, 0
 		q := genLogQuery(rng, ds, genOpts{Distinct: true, MaxStages: 5}, &unknown, &undecided)
+		if rng.Chance(1, 5) {
+			// a last stage that rewrites a label the records inherit from their source: whatever it writes
+			// belongs to that one record; the selector and the filters before it read, for every record,
+			// what the source says
+			lbl := vk.Pick(rng, []string{"env", "app", "pod"})
+			pushStage(&q, stLabelTemplate(lbl, Tmpl{Text: "{{ ." + lbl + " }}+{{ .app }}", Eval: func(e *Ent) (string, bool) { return e.L[lbl] + "+" + e.L["app"], true }}))
+			c.Count("pipelines_rewriting_a_source_label", 1)
+		}
 		text := q.Text()
 		model := q.RunModel(ds.Recs, msg)
 		if unknown > 0 {
@@ -100,9 +108,30 @@ func runC01(r *vk.Run) {
 		c.Count("records_in", len(ds.Recs))
 		c.Count("records_kept", len(model))
 		first := ""
+		// where the storage keeps a label (record, scope or resource attribute) is its own business: in
+		// a third of the cases some labels are record- or scope-level, so records sharing one resource
+		// differ in the labels a selector may name
+		recLevel, scopeLevel := map[string]bool{}, map[string]bool{}
+		if rng.Chance(1, 3) {
+			names := map[string]bool{}
+			for _, rec := range ds.Recs {
+				for k := range rec.Labels {
+					names[k] = true
+				}
+			}
+			for _, k := range sortedKeys(names) {
+				switch rng.Intn(4) {
+				case 0, 1:
+					recLevel[k] = true
+				case 2:
+					scopeLevel[k] = true
+				}
+			}
+			c.Count("cases_with_record_level_labels", 1)
+		}
 		for _, mask := range masks {
 			lc, nc := capsFromMask(mask)
-			mq := &MemQuerier{Recs: ds.Recs, LabelCaps: lc, LineCaps: nc, ErrAfter: -1}
+			mq := &MemQuerier{Recs: ds.Recs, LabelCaps: lc, LineCaps: nc, ErrAfter: -1, RecordLevel: recLevel, ScopeLevel: scopeLevel}
 			res, err := evalQuery(mq, text, logRangeParams(n))
 			c.Eval(1)
 			c.Seen("capability_configs", fmt.Sprint(mask))
@@ -156,6 +185,86 @@ func runC01(r *vk.Run) {
 		}
 		_ = strings.Join
 	})
+	// the same lines behind the Docker storage (model-free): 1..3 containers write the dataset's lines,
+	// terminated or not, sometimes two at one instant; the query over the daemon's logs must return what
+	// it returns over an in-memory storage holding exactly those records with the containers' labels
+	r.Phase("daemon", r.N(400, 30000), func(c *vk.Case) {
+		rng := c.Rng
+		format := formats[c.Idx%len(formats)]
+		n := rng.Range(4, 30)
+		ds := genDataset(rng, format, n, logT0)
+		nc := rng.Range(1, 3)
+		inv := make([]CSpec, nc)
+		for i := range inv {
+			inv[i] = CSpec{ID: fmt.Sprintf("id%d", i), Name: fmt.Sprintf("/c%d", i), Image: "img", State: "running", Labels: map[string]string{"tier": vk.Pick(rng, []string{"a", "b"})}}
+		}
+		var mem []Rec
+		lastTS := make([]int64, nc)
+		unterminated := 0
+		for _, rec := range ds.Recs {
+			ci := rng.Intn(nc)
+			body := rec.Line
+			if rng.Bool() {
+				body += "\n"
+			} else {
+				unterminated++
+			}
+			ts := rec.TS
+			if lastTS[ci] != 0 && rng.Chance(1, 5) {
+				ts = lastTS[ci] // two writes at one instant
+			}
+			lastTS[ci] = ts
+			inv[ci].Frames = append(inv[ci].Frames, Frame{Type: byte(1 + rng.Intn(2)), TS: ts, Body: body})
+			lbls, _, _ := expectedContainerLabels3(inv[ci])
+			mem = append(mem, Rec{TS: ts, Line: body, Labels: lbls})
+		}
+		sortRecs(mem)
+		unknown, undecided := 0, 0
+		q := genLogQuery(rng, ds, genOpts{MaxStages: 3}, &unknown, &undecided)
+		q.Sel = []selMatcher{{Label: "container", Op: logql.OpRe, OpS: "=~", Value: "c.*"}}
+		text := q.Text()
+		p := logRangeParams(n)
+		want, err1 := evalQuery(&MemQuerier{Recs: mem, ErrAfter: -1}, text, p)
+		got, err2 := evalQuery(dockerQuerier(newFakeDocker(inv)), text, p)
+		c.Eval(2)
+		det := map[string]any{"query": text, "inventory": inv, "over_memory": want, "over_daemon": got}
+		if (err1 == nil) != (err2 == nil) {
+			c.Fail("", fmt.Sprintf("%s: over memory err=%v, over the daemon err=%v", text, err1, err2), det)
+			return
+		}
+		if err1 != nil {
+			c.Count("queries_failing_on_both", 1)
+			return
+		}
+		bag := func(r Result) map[string]int {
+			m := map[string]int{}
+			for _, s := range r.Streams {
+				for _, e := range s.Entries {
+					m[fmt.Sprintf("%d %q", e.TS, e.Line)]++
+				}
+			}
+			return m
+		}
+		bw, bg := bag(want), bag(got)
+		for k, nw := range bw {
+			if bg[k] != nw {
+				c.Fail("", fmt.Sprintf("%s: record %s returned %d times over the daemon's logs, %d times over the same records in memory", text, k, bg[k], nw), det)
+				return
+			}
+		}
+		for k, ng := range bg {
+			if bw[k] != ng {
+				c.Fail("", fmt.Sprintf("%s: record %s returned %d times over the daemon's logs, %d times over the same records in memory", text, k, ng, bw[k]), det)
+				return
+			}
+		}
+		c.Count("daemon_vs_memory_comparisons", 1)
+		if unterminated > 0 && len(bw) > 0 {
+			c.Nontrivial(fmt.Sprintf("daemon|%d", c.Idx))
+			c.Count("daemon_cases_with_unterminated_lines", 1)
+		}
+	})
+	r.Require("daemon_cases_with_unterminated_lines", 200)
 	r.Require("distinct_nontrivial", 300)
 	r.Require("evaluations_with_offload", 1000)
 	r.Require("stage:distinct", 50)
